@@ -58,6 +58,9 @@ xtextlen(const char *str)
 				return -1;
 
 			addrspec[idx++] = hexdigit(str - 1);
+			/* an encoded NUL would end the addr-spec before the syntax check */
+			if (addrspec[idx - 1] == '\0')
+				return -1;
 
 			str++;
 			result += 3;
